@@ -217,7 +217,7 @@ reg(Prop('C05', 'exploration', _dsubs(['sim_posix', 'c11_posix'], 3000, 30000),
          'Non-trivial = the trace contains a rare order (thread ran before create returned, main dropped its last reference before the thread started, unref overlapping the running thread); distinct = distinct executed trace hash.',
     assumptions=_dsched_assume + ['handle lifetime (freed exactly once) is observed by ASan-free builds only through the model here; C20 accounts the blocks'],
     corpus_harness='dsched_sim_posix', design_ref='4/C05, 3.1'))
-ENGINES.append(dict(name='dsched', path='engines/dsched', serves_properties=['C01', 'C02', 'C03', 'C04', 'C05'],
+ENGINES.append(dict(name='dsched', path='engines/dsched', serves_properties=['C01', 'C02', 'C03', 'C04', 'C05', 'C20'],
                     kind_free_text='deterministic cooperative scheduler over modelled pthreads: generated programs + generated schedule vectors (stateful PBT over interleavings), fork per case, bounded-exhaustive preemption enumeration'))
 for _p, _t in (('C01', 'mutual exclusion, lost-update and trylock oracles'), ('C02', 'reader/writer exclusion, trylock and deadlock-freedom oracles'), ('C03', 'atomic release-and-wait, wake-up and exchange-completeness oracles'),
                ('C04', 'exact linearizability search'), ('C05', 'join/exit-code, TLS notifier and ownership-model oracles')):
@@ -422,5 +422,8 @@ _ADD6 = {
  'C18': ' A scenario child that burns 20 s of its own CPU time (ITIMER_VIRTUAL) is inside a library call that does not return: verdict no-return. Scenarios with several windows are also run with the failure confined to ONE window (every window x every k x both modes), so that the state a later window starts from is the one a fault-free prefix leaves; names of pre-existing IPC objects must survive a failed second open.',
  'C19': ' The ipc_new scenario also replaces, in CREATE mode and under the same interruptions, a stale semaphore name made with the platform call (the name must then carry the given value); EINTR is planned at invocations 1..9 of sem_open / shm_open.',
 }
+PROPS['C20'].subs += [Sub('threads_sched_' + c, 'dsched_' + c, shards=(2, 4), cases=(1500, 15000), maxsize=(60, 100), env={'VERIF_SUB': 'rand'}, timeout=(900, 3600)) for c in ('c11_posix',)]
+PROPS['C20'].subs += [Sub('threads_sched_exh_c11_posix', 'dsched_c11_posix', shards=(2, 4), cases=(1, 1), env={'VERIF_SUB': 'exh'}, timeout=(900, 3600))]
+_ADD6['C20'] = ' Thread-program sub-runs (the generated thread programs and schedules of C05, deterministic scheduler): after every thread was joined or finished, every handle unreferenced and every key released, no library block may remain - under every explored interleaving of first key uses, exits and releases. Thread names of every length 1..44.'
 for _k, _v in list(_ADD.items()) + list(_ADD6.items()):
     PROPS[_k].rule += _v
